@@ -162,7 +162,7 @@ func c08Load() {
 // family sizes
 func c08OpFaultWorlds(tier string) int {
 	if tier == "thorough" {
-		return 20_000
+		return 60_000
 	}
 	return 500
 }
@@ -179,8 +179,8 @@ func c08Sizes(tier string) (truncP, truncT, flipP, flipT, cross, rderr, ill int)
 	ill = len(c08IllTyped) * 4
 	if tier == "thorough" {
 		flipP = truncP * len(c08Alphabet)
-		flipT = 400_000
-		rderr = 60_000
+		flipT = 1_200_000
+		rderr = 200_000
 	} else {
 		flipP = 400_000
 		flipT = 40_000
@@ -196,7 +196,7 @@ func (c08) NumCases(tier string) int {
 
 func c08TreeWorlds(tier string) int {
 	if tier == "thorough" {
-		return 60_000
+		return 240_000
 	}
 	return 3_000
 }
